@@ -202,6 +202,15 @@ def main(tier):
         jobs.append(('history mem=%s' % (mem,), history_batch(mem, depth, budget), {'cc': 'gcc', 'cflags': ('-O1',), 'drv_args': (depth, secs), 'timeout': secs + 60}))
         # the same exploration at depth 2 with AddressSanitizer: a stale or freed data pointer after grow fails loudly
         jobs.append(('history-asan mem=%s' % (mem,), history_batch(mem, 2, budget), {'cflags': ('-O1', '-fsanitize=address', '-fno-omit-frame-pointer'), 'drv_args': (2, secs), 'timeout': secs + 60}))
+    # the host allocator fails: realloc (renamed for the translated code) returns NULL above 3 pages, the reference has the same embedder cap;
+    # a failed grow must return -1 and change nothing - size, pages, contents, and what later grows see
+    failing = {'defines': ('-Drealloc=ls_realloc', '-DLS_PAGE_CAP=3'),
+               'driver_extra': '#undef realloc\nextern void* realloc(void*, size_t);\nvoid* ls_realloc(void* p, size_t n) { if (n > (size_t)LS_PAGE_CAP * 65536u) return NULL; return realloc(p, n); }\n'}
+    jobs.append(('history mem=(1, None) allocator fails above 3 pages', history_batch((1, None), depth, budget), dict(failing, cc='gcc', cflags=('-O1',), drv_args=(depth, secs), timeout=secs + 60)))
+    # a SHARED memory (reserved at its maximum, never reallocated): new pages must still be zero, old contents kept, accesses in new pages in bounds
+    thr = {'defines': ('-DWASM_THREADS_PTHREADS',)}
+    jobs.append(('history mem=(1, 3, shared)', history_batch((1, 3, True), depth, budget), dict(thr, cc='gcc', cflags=('-O1', '-pthread'), drv_args=(depth, secs), timeout=secs + 60)))
+    jobs.append(('history-asan mem=(1, 3, shared)', history_batch((1, 3, True), 2, budget), dict(thr, cflags=('-O1', '-pthread', '-fsanitize=address', '-fno-omit-frame-pointer'), drv_args=(2, secs), timeout=secs + 60)))
     if tier == 'thorough':
         jobs.append(('flavours-gccO2', flavour_batch(), {'cc': 'gcc', 'cflags': ('-O2',), 'timeout': 900}))
     # interleaved passive/active segments, data segments embedded as arrays and as one external blob (-d gnu-ld, linked with ld -r -b binary)
@@ -255,7 +264,7 @@ def main(tier):
     chk.cov['rule'] = ('(a) 14 loads x 5 static offsets x 2 alignment hints and 9 stores x 5 offsets as one-instruction functions over 18 base addresses '
                        '(out-of-bounds combinations are skipped: the property speaks about in-bounds accesses) x value alphabets, all memory bytes '
                        'compared after every store; (b) BFS over histories of a 50-operation alphabet (stores, grow by 0/1/2/3/65535/65536/2^32-1, size, '
-                       'fill, copy with overlap in both directions, init from a passive segment, data.drop, loads) for 5 memory declarations; a state is '
+                       'fill, copy with overlap in both directions, init from a passive segment, data.drop, loads) for 6 memory declarations and a shared memory; a state is '
                        'the history reaching it, deduplicated by (pages, all bytes, dropped flag) of the reference; every transition executes the real '
                        'translated code on a fresh instance and compares result, trap, pages and every byte; ASan build; (c) every (store flavour, store flavour, load flavour) triple as ONE function '
                        'store p; store q; load p (and the mirrored order) over overlapping / disjoint address pairs, compiled by gcc and clang at -O2 (thorough: + -O3, -O0): all accesses visible to '
